@@ -31,21 +31,18 @@ Definition replace_argv (R line : list byte) (cmd : list (list byte)) : list (li
   | prog :: init => prog :: map (str_replace R line) init
   end.
 
-(* normalize_options: effective (max_args, max_lines, replace?) from the parsed options and the
-   position of the last occurrence of each (None = absent; Option's order: None < Some _) *)
-Definition olt (a b : option nat) : bool :=
-  match a, b with
-  | None, None => false | None, Some _ => true | Some _, None => false
-  | Some x, Some y => x <? y end.
-
-Definition normalize (n l : option N) (repl : bool) (i_n i_l i_r : option nat)
-  : option N * option N * bool :=
-  match n, l, repl with
-  | None, None, true => (Some 1%N, None, true)
-  | Some 1%N, None, true => (Some 1%N, None, true)
-  | Some _, None, false | None, Some _, false | None, None, false => (n, l, false)
-  | _, _, _ =>
-      if olt i_n i_l && olt i_r i_l then (None, l, false)
-      else if olt i_l i_n && olt i_r i_n then (n, None, false)
-      else (Some 1%N, None, repl)
+(* batch_mode: -n N, -L N and -I R / -i / --replace[=R] in the order they were given.  Each replaces the others, except that
+   -n 1 leaves an earlier -I in force.  The state is (max_args, max_lines, replace?). *)
+Inductive bopt := ON (n : N) | OL (n : N) | OI.
+Definition bstate := (option N * option N * bool)%type.
+Definition bstep (st : bstate) (o : bopt) : bstate :=
+  let '(n, l, r) := st in
+  match o with
+  | OI => (None, None, true)
+  | OL k => (None, Some k, false)
+  | ON k => if N.eqb k 1 && r then st else (Some k, None, false)
   end.
+Definition batch_mode (os : list bopt) : bstate := fold_left bstep os (None, None, false).
+(* normalize_options: replace mode means one argument (one line) per run *)
+Definition normalize (os : list bopt) : bstate :=
+  let '(n, l, r) := batch_mode os in if r then (Some 1%N, None, true) else (n, l, false).
